@@ -474,8 +474,11 @@ class Explicit:
             pt = {x: Rational(r.randint(1, 12), r.randint(5, 13)) for x in self.Xh}
             dv = self.det.xreplace(pt)
             try:
-                if abs(complex(sp.N(dv, 30))) > 1e-6:
+                v = mp_value(dv)
+                if v is not None and abs(v) > 1e-6:
                     return pt
+            except CaseTimeout:
+                raise
             except Exception:  # noqa
                 pass
         return None
@@ -487,8 +490,30 @@ def as_rows(v):
     return [[v]]
 
 
+def mp_value(e):
+    """value of a closed sympy expression with mpmath at two FIXED working precisions; None when the two disagree
+    (cancellation ate the digits).  sympy's own evalf is not used: its adaptive precision returned wrong values
+    (silently, even with strict=True) on the large nested radicals / trigonometric sums of the Czarny mapping."""
+    import mpmath
+    f = sp.lambdify([], e, "mpmath")
+    vals = []
+    for dps in (60, 140):
+        with mpmath.workdps(dps):
+            v = mpmath.mpmathify(f())
+            vals.append(mpmath.mpc(v))
+    a, b = vals
+    with mpmath.workdps(140):
+        scale = max(1, abs(a), abs(b))
+        if not (mpmath.isfinite(a.real) and mpmath.isfinite(a.imag) and mpmath.isfinite(b.real) and mpmath.isfinite(b.imag)):
+            return None
+        if abs(a - b) / scale > mpmath.mpf(10) ** (-30):
+            return None
+    return b
+
+
 def compare(exp, out, expr, npts=2, tol=1e-12):
     """value of the implementation's logical expression at x^  vs  classical value of the original at F(x^)"""
+    import mpmath
     got = exp.tens(out)
     want = as_rows(exp.classical(expr))
     flat_g = [c for r in got for c in r]
@@ -506,19 +531,21 @@ def compare(exp, out, expr, npts=2, tol=1e-12):
         img = {x: f.xreplace(pt) for x, f in zip(exp.X, exp.F)}
         for idx, (g, wv) in enumerate(zip(flat_g, flat_w)):
             try:
-                vg = sp.N(sp.sympify(g).xreplace(pt), 50)
-                vw = sp.N(sp.sympify(wv).xreplace(img), 50)
-                cg, cw = complex(vg), complex(vw)
+                vg = mp_value(sp.sympify(g).xreplace(pt))
+                vw = mp_value(sp.sympify(wv).xreplace(img))
+            except CaseTimeout:
+                raise
             except Exception:  # noqa
                 continue
-            if cg != cg or cw != cw:
+            if vg is None or vw is None:
                 continue
             used += 1
-            dlt = abs(cg - cw) / max(1.0, abs(cg), abs(cw))
+            with mpmath.workdps(60):
+                dlt = float(abs(vg - vw) / max(1, abs(vg), abs(vw)))
             worst = max(worst, dlt)
             if dlt > tol:
                 return False, {"why": "value", "entry": idx, "point": {str(k): str(v) for k, v in pt.items()},
-                               "logical_value": str(vg)[:30], "physical_value": str(vw)[:30]}
+                               "logical_value": mpmath.nstr(vg, 25), "physical_value": mpmath.nstr(vw, 25)}
     if used == 0:
         return None, {"why": "no point could be evaluated"}
     return True, {"worst_rel": worst, "evaluated": used}
@@ -599,7 +626,9 @@ def run_case(case):
     return out
 
 
-class CaseTimeout(Exception):
+class CaseTimeout(BaseException):
+    # BaseException: the broad `except Exception` handlers inside sympy / the oracle must not swallow it; the timer
+    # repeats every few seconds in case a bare `except:` (sympde's cancel()) does
     pass
 
 
@@ -610,7 +639,7 @@ def _alarm(signum, frame):
 def run_case_guarded(case, limit):
     import signal
     signal.signal(signal.SIGALRM, _alarm)
-    signal.alarm(int(limit))
+    signal.setitimer(signal.ITIMER_REAL, float(limit), 3.0)
     import time
     t0 = time.time()
     try:
@@ -620,7 +649,7 @@ def run_case_guarded(case, limit):
     except CaseTimeout:
         return {"in": None, "out": {"err": "timeout", "msg": "case exceeded %ss" % limit}, "secs": round(time.time() - t0, 2)}
     finally:
-        signal.alarm(0)
+        signal.setitimer(signal.ITIMER_REAL, 0)
 
 
 def main():
